@@ -1,1 +1,148 @@
-(* stub: to be written by group Questrade *)
+(* C20 (pages): src/peripheral/pdf.rs
+     LazyPageTextVec::safe_page_chunks_with_remainder_pn   (pdf.rs:108-140)
+     LazyPageTextVec::load_pages                           (pdf.rs:72-93)
+     OptimizedPageIter::next                               (pdf.rs:182-224)
+   Page numbers are N (u32 in the code; the u32 overflow of [num_pages + 1]
+   at 2^32-1 pages is not modelled).  Page text is an abstract type.
+   Definitions only. *)
+From Coq Require Import List NArith ZArith Bool Arith.
+From ACB Require Import Base.Outcome.
+Import ListNotations.
+Local Open Scope N_scope.
+
+(* ---- safe_page_chunks_with_remainder_pn ---- *)
+Definition page_ok (n p : N) : bool := (p <=? n) && (0 <? p).
+
+Definition safe_chunk (n : N) (chunk : list N) : list N := filter (page_ok n) chunk.
+
+(* chunks that become empty are dropped *)
+Fixpoint safe_groups (n : N) (groups : list (list N)) : list (list N) :=
+  match groups with
+  | [] => []
+  | c :: r =>
+      match safe_chunk n c with
+      | [] => safe_groups n r
+      | s => s :: safe_groups n r
+      end
+  end.
+
+Definition memN (p : N) (l : list N) : bool := existsb (N.eqb p) l.
+
+(* found_pages.len() of the HashSet *)
+Fixpoint distinct_count (l : list N) : nat :=
+  match l with
+  | [] => O
+  | p :: r => if memN p r then distinct_count r else S (distinct_count r)
+  end.
+
+Definition pages_upto (n : N) : list N := map N.of_nat (seq 1 (N.to_nat n)).
+
+Definition safe_page_chunks (n : N) (hints : list (list N)) : list (list N) :=
+  let safe := safe_groups n hints in
+  let found := concat safe in
+  if Nat.eqb (distinct_count found) (N.to_nat n) then safe
+  else safe ++ [filter (fun p => negb (memN p found)) (pages_upto n)].
+
+(* ---- page cache and iterator ---- *)
+Module PSite.
+  Definition page_zero : N := 301.     (* pdf.rs:81/217 (page_num - 1) on page 0: u32 underflow *)
+  Definition cache_index : N := 302.   (* pdf.rs:220 page_texts[next_idx]: index out of bounds *)
+  Definition cache_unwrap : N := 303.  (* pdf.rs:220 .clone().unwrap() on an empty slot *)
+  Definition empty_group : N := 304.   (* pdf.rs:216 unyielded_pages.pop_front().unwrap() *)
+End PSite.
+
+(* how load_pages sizes the cache before storing page p:
+   [ResizeAlways] = `self.page_texts.resize(idx + 1, None)` (the code up to
+   commit 90a5400: truncates when idx + 1 < len);
+   [ResizeGrow]   = resize only when idx + 1 > len (the code after the fix). *)
+Inductive resize_policy := ResizeAlways | ResizeGrow.
+
+(* how an iteration ended *)
+Inductive iter_end := IterDone | IterError | IterPanic (site : N).
+
+Section Iter.
+  Variable T : Type.
+  (* text extraction of one page; None = extraction error *)
+  Variable prov : N -> option T.
+  Variable pol : resize_policy.
+
+  Definition cache := list (option T).
+
+  (* Vec::resize(len, None) *)
+  Definition resize (c : cache) (len : nat) : cache :=
+    firstn len c ++ repeat None (len - length c).
+
+  Fixpoint set_nth (i : nat) (v : option T) (c : cache) : cache :=
+    match c, i with
+    | [], _ => []
+    | _ :: r, O => v :: r
+    | x :: r, S k => x :: set_nth k v r
+    end.
+
+  Definition store (c : cache) (p : N) (t : T) : cache :=
+    let idx := (N.to_nat p - 1)%nat in
+    let c' := match pol with
+              | ResizeAlways => resize c (idx + 1)
+              | ResizeGrow => if Nat.ltb (length c) (idx + 1) then resize c (idx + 1) else c
+              end in
+    set_nth idx (Some t) c'.
+
+  (* get_pages_text: all pages of the group or an error *)
+  Fixpoint fetch (g : list N) : option (list T) :=
+    match g with
+    | [] => Some []
+    | p :: r =>
+        match prov p, fetch r with
+        | Some t, Some ts => Some (t :: ts)
+        | _, _ => None
+        end
+    end.
+
+  (* the zip loop of load_pages; None = u32 underflow on page 0 *)
+  Fixpoint store_all (c : cache) (g : list N) (ts : list T) : option cache :=
+    match g, ts with
+    | p :: r, t :: tr => if p =? 0 then None else store_all (store c p t) r tr
+    | _, _ => Some c
+    end.
+
+  (* yielding the pages of a loaded group *)
+  Fixpoint yield_group (c : cache) (g : list N) : list (N * T) * option N :=
+    match g with
+    | [] => ([], None)
+    | p :: r =>
+        if p =? 0 then ([], Some PSite.page_zero) else
+        match nth_error c (N.to_nat p - 1) with
+        | None => ([], Some PSite.cache_index)
+        | Some None => ([], Some PSite.cache_unwrap)
+        | Some (Some t) =>
+            let '(ys, e) := yield_group c r in ((p, t) :: ys, e)
+        end
+    end.
+
+  (* the whole iteration: pages yielded (in order), groups requested from the
+     provider (in order), and how it ended *)
+  Fixpoint run_iter (c : cache) (groups : list (list N))
+    : list (N * T) * list (list N) * iter_end :=
+    match groups with
+    | [] => ([], [], IterDone)
+    | g :: r =>
+        match fetch g with
+        | None => ([], [g], IterError)
+        | Some ts =>
+            match store_all c g ts with
+            | None => ([], [g], IterPanic PSite.page_zero)
+            | Some c' =>
+                match g with
+                | [] => ([], [g], IterPanic PSite.empty_group)
+                | _ =>
+                    match yield_group c' g with
+                    | (ys, Some site) => (ys, [g], IterPanic site)
+                    | (ys, None) =>
+                        let '(ys', reqs, e) := run_iter c' r in
+                        (ys ++ ys', g :: reqs, e)
+                    end
+                end
+            end
+        end
+    end.
+End Iter.
